@@ -31,6 +31,9 @@ pub(crate) struct ReqSocket {
   ingress_engine: AddressedIngressEngine,
   pending_pipe_senders: ParkingLotMutex<HashMap<usize, PipeMessageSender>>,
   state: ParkingLotMutex<ReqState>,
+  /// Held by send() from its state check until its state update, so that of several racing
+  /// send() calls only one can pass the ReadyToSend check. Released on drop (cancel-safe).
+  send_turn: tokio::sync::Mutex<()>,
   reply_available_notifier: Arc<Notify>,
   pipe_read_to_endpoint_uri: RwLock<HashMap<usize, String>>,
 }
@@ -44,6 +47,7 @@ impl ReqSocket {
       ingress_engine: AddressedIngressEngine::new(max_conn),
       pending_pipe_senders: ParkingLotMutex::new(HashMap::new()),
       state: ParkingLotMutex::new(ReqState::ReadyToSend),
+      send_turn: tokio::sync::Mutex::new(()),
       reply_available_notifier: Arc::new(Notify::new()),
       pipe_read_to_endpoint_uri: RwLock::new(HashMap::new()),
     }
@@ -118,6 +122,10 @@ impl ISocket for ReqSocket {
         "REQ send: Cleared MORE flag from user-provided message."
       );
     }
+
+    // Only one send() at a time may go from the state check to the state update; a racing
+    // send() waits here and is then judged against the state the first one left.
+    let _send_turn = self.send_turn.lock().await;
 
     // === LOCK SCOPE 1: Check State ===
     {
